@@ -7,7 +7,7 @@ bound are explored breadth-first, deduplicated by the canonical state of object 
 judged transition must return exactly what the same event returns on a fresh, equally configured
 object (computed in a forked child that starts from the import-time state of the library)."""
 import copy
-from mc.engine import HSystem, hsub, canon, library_globals, diff_globals, h8, pristine
+from mc.engine import HSystem, hsub, Sub, canon, library_globals, diff_globals, h8, pristine
 from mc.common import ramp, expander
 
 m1 = b'abc'
@@ -348,9 +348,77 @@ def depth(tier):
     return 5 if tier == 'thorough' else 3
 
 
+# ---- long runs: thousands of distinct one-shot calls on one object, then the first ones again ------------------
+
+def _long_kinds():
+    from crysp.sha import SHA1, SHA2
+    from crysp.md import MD4, MD5
+    from crysp.blake import Blake, Blake2
+    from crysp.hmac import HMAC
+    from crysp.aes import AES
+    from crysp.des import DES
+    from crysp.threefish import Threefish
+    from crysp import mode as Mo
+    from crysp.salsa20 import Salsa20
+    from crysp.chacha import Chacha
+    from crysp.nilsimsa import Nilsimsa
+    import crysp.crc as C
+
+    def msg(i, n=12):
+        return (i * 0x9e3779b97f4a7c15 + 0x1234567).to_bytes(24, 'big')[-n:]
+    return {
+        'MD5': (MD5, lambda o, i: o(msg(i))), 'MD4': (MD4, lambda o, i: o(msg(i))), 'SHA1': (lambda: SHA1(1), lambda o, i: o(msg(i))),
+        'SHA2-256': (lambda: SHA2(256), lambda o, i: o(msg(i))), 'SHA2-512': (lambda: SHA2(512), lambda o, i: o(msg(i))),
+        'Blake-256': (lambda: Blake(256), lambda o, i: o(msg(i))), 'Blake2s': (lambda: Blake2(256), lambda o, i: o(msg(i))),
+        'HMAC-MD5': (lambda: HMAC(MD5(), b'key'), lambda o, i: o(msg(i))),
+        'AES-128': (lambda: AES(ramp(16)), lambda o, i: o.enc(msg(i, 16))), 'DES': (lambda: DES(ramp(8, 5, 1)), lambda o, i: o.enc(msg(i, 8))),
+        'DES-dec': (lambda: DES(ramp(8, 5, 1)), lambda o, i: o.dec(msg(i, 8))),
+        'Threefish-256': (lambda: Threefish(ramp(32), ramp(16, 3)), lambda o, i: o.enc(msg(i, 16) + msg(i + 1, 16))),
+        'ECB-DES': (lambda: Mo.ECB(DES(ramp(8, 3, 1))), lambda o, i: o.enc(msg(i, 11))),
+        'CBC-DES': (lambda: Mo.CBC(DES(ramp(8, 3, 1)), ramp(8, 9, 4)), lambda o, i: o.enc(msg(i, 11))),
+        'CTR-DES': (lambda: Mo.CTR(DES(ramp(8, 3, 1)), ramp(8, 5, 250)), lambda o, i: o.enc(msg(i, 11))),
+        'Salsa20-nonces': (lambda: Salsa20(B1(ramp(32)), 2), lambda o, i: o.enc(B1(msg(i, 8)), b'abc')),
+        'Chacha-nonces': (lambda: Chacha(B1(ramp(32)), 2), lambda o, i: o.enc(B1(msg(i, 8)), b'abc')),
+        'Nilsimsa': (Nilsimsa, lambda o, i: o(msg(i, 20))),
+        'crc32': (lambda: C, lambda o, i: o.crc32(msg(i))), 'crc32_fix': (lambda: C, lambda o, i: o.crc32_fix(msg(i), i * 2654435761 & 0xffffffff)),
+    }
+
+
+def pts_long(tier):
+    n = 9000 if tier == 'thorough' else 1100
+    return [(k, n) for k in sorted(_long_kinds())]
+
+
+def run_long(ctx, pt):
+    """one object answers N distinct one-shot calls; calls 0..3 are then asked again and some later ones are checked on the
+    way.  Expected answers: the same call as the first call of a fresh object in a forked child (import-time state)."""
+    name, N = pt
+    mk, call = _long_kinds()[name]
+    probe = [0, 1, 2, 3, N // 2, N - 1]
+
+    def solo():
+        return [obs(call(mk(), i)) for i in probe]
+    base = pristine(solo)
+    o = mk()
+    got = {}
+    for i in range(N):
+        r = ctx.attempt(call, o, i)
+        if i in probe:
+            got[i] = r
+    K = 'C10/%s/long-run' % name
+    ctx.eq(K + '/answer-during-the-run', [(got[i][0], obs(got[i][1])) for i in probe], [('ok', b) for b in base])
+    again = [ctx.attempt(call, o, i) for i in probe[:4]]
+    ctx.eq(K + '/first-calls-asked-again-after-%d-other-calls' % N, [(r[0], obs(r[1])) for r in again], [('ok', b) for b in base[:4]])
+    o2 = mk()
+    ctx.eq(K + '/fresh-object-after-%d-calls-in-the-process' % N, [(lambda r: (r[0], obs(r[1])))(ctx.attempt(call, o2, i)) for i in probe[:2]], [('ok', b) for b in base[:2]])
+
+
 def subchecks():
-    return [hsub('histories', systems, depth,
-                 bound='60 object kinds (SHA1/SHA0/SHA2/SHA3/Keccak/MD4/MD5/MD6 x3/Blake x2/Blake2 x2/Skein x4/HMAC x2/TLSH/Nilsimsa/AES x2/DES/TDEA/Serpent/Threefish x2/ECB x2/CBC x2/CTR/CTS x2/Salsa20/Chacha/crc and the module singletons keccak_256, blake256, blake2b, blake2s, tlsh), each with 4-9 events (one-shot calls incl. per-call options and calls that raise; perturbations: unfinished updates, duplex, suspended keystream generators, sibling instances, shared inner objects); all histories to depth 3 (thorough 5), deduplicated by the canonical state of object + sibling; the module- and class-level state of the library is part of the canonical state (histories that change it are explored further) and reference answers come from forked children that start from the import-time state')]
+    return [Sub('long-runs', pts_long, run_long, engine='H', exhaustive=False, chunk=1,
+                bound='20 object kinds (hashes, HMAC, block ciphers, modes, stream ciphers under changing nonces, Nilsimsa, crc32, crc32_fix): one object answers 1100 (thorough 9000) distinct one-shot calls, then the first four again, then a fresh object; answers vs the same call made first in a forked child'),
+            hsub('histories', systems, depth,
+                 split=lambda tier: 1 if tier == 'quick' else 3, bound='60 object kinds (SHA1/SHA0/SHA2/SHA3/Keccak/MD4/MD5/MD6 x3/Blake x2/Blake2 x2/Skein x4/HMAC x2/TLSH/Nilsimsa/AES x2/DES/TDEA/Serpent/Threefish x2/ECB x2/CBC x2/CTR/CTS x2/Salsa20/Chacha/crc and the module singletons keccak_256, blake256, blake2b, blake2s, tlsh), each with 4-9 events (one-shot calls incl. per-call options and calls that raise; perturbations: unfinished updates, duplex, suspended keystream generators, sibling instances, shared inner objects); all histories to depth 3 (thorough 5), deduplicated by the canonical state of object + sibling; the module- and class-level state of the library is part of the canonical state (histories that change it are explored further) and reference answers come from forked children that start from the import-time state')]
+
 
 
 RULE = 'BFS over call histories per object kind; an observation is the returned bytes or the exception class; distinct_nontrivial counts distinct (kind,event,result) observations'
